@@ -519,6 +519,9 @@ func (r *Run) Finish(verifDir, outBase string, explanation string) int {
 	if err != nil {
 		r.Undecide("known-findings", "cannot read KNOWN_FINDINGS.txt: %v", err)
 	}
+	if len(r.E.Shallow) > 0 {
+		r.Notes = append(r.Notes, "enumerated without look-in (path budget): "+strings.Join(r.E.Shallow, ", "))
+	}
 	if len(r.E.Trunc) > 0 {
 		r.Notes = append(r.Notes, "path enumeration truncated for: "+strings.Join(r.E.Trunc, ", "))
 	}
